@@ -14,6 +14,7 @@
   `indptr[i] ..< indptr[i+1]`; `slice D r0 r1` — Python `D[r0:r1]`.
 -/
 import CTM.Lemmas.SparseFlat
+import CTM.Lemmas.SparseIter
 
 namespace CTM.C05
 open CTM.Chunking CTM.Sparse
@@ -275,5 +276,68 @@ theorem get_batch_dense_rejects_repeats {α} (zero : α) (D : Dense α) (nCols :
   simp only [h1, h2, Bool.false_eq_true, if_false, Bool.not_false, if_true]
 
 example : denseGetBatch 0 [[1], [2]] 1 [1, 1] = .error .badRows := rfl
+
+/-! ## one iterator object: iteration and random access interleaved -/
+
+/-- **`random_access_stateless`** — the iterator object as a state machine
+(state = the cursor `self.r0`; operations `next()`, `get_chunk(r0, r1)`,
+`it[i]`, `it[[a, …, b]]`, `get_batch(rows)`).  For a reader that answers legal
+requests with the stored rows of `D` (`ReaderExact`; the CSR, dense and CSC
+readers are, by `readers_exact`), every chunk size `≥ 1` and **every operation
+sequence**, started at cursor 0:
+* the blocks delivered by the `next()` calls of the sequence, concatenated,
+  are rows `0 ..< k` of `D` where `k ≤ n` is the final cursor — whatever random
+  access was interleaved, nothing is skipped or delivered twice;
+* wherever it occurs in the sequence (after any prefix `pre`), a random-access
+  operation with legal arguments returns the stored rows and leaves the cursor
+  where it was. -/
+theorem random_access_stateless {α} (rd : Reader α) (D : Dense α) (ex : ReaderExact rd D)
+    (cs : Nat) (hcs : 1 ≤ cs) (ops : List IterOp) :
+    ((iterRun rd cs 0 ops).1 ≤ D.length ∧
+      nextRows ops (iterRun rd cs 0 ops).2 = slice D 0 (iterRun rd cs 0 ops).1) ∧
+    (∀ pre : List IterOp,
+      (∀ r0 r1, r0 ≤ r1 → r1 ≤ D.length →
+        iterStep rd cs (iterRun rd cs 0 pre).1 (.getChunk r0 r1)
+          = ((iterRun rd cs 0 pre).1, .block (slice D r0 r1) r0 r1)) ∧
+      (∀ i, i < D.length →
+        iterStep rd cs (iterRun rd cs 0 pre).1 (.getItem i)
+          = ((iterRun rd cs 0 pre).1, .block (slice D i (i + 1)) i (i + 1))) ∧
+      (∀ xs a b, xs.head? = some a → xs.getLast? = some b → a ≤ b + 1 → b < D.length →
+        iterStep rd cs (iterRun rd cs 0 pre).1 (.getItemList xs)
+          = ((iterRun rd cs 0 pre).1, .block (slice D a (b + 1)) a (b + 1))) ∧
+      (∀ rows, rows ≠ [] → rows.Nodup → (∀ r ∈ rows, r < D.length) →
+        iterStep rd cs (iterRun rd cs 0 pre).1 (.getBatch rows)
+          = ((iterRun rd cs 0 pre).1, .batch (rows.map (D.getD · []))))) := by
+  have h := iterRun_prefix rd D ex cs hcs ops 0 (Nat.zero_le _)
+  exact ⟨⟨h.2.1, h.2.2⟩, fun pre => iterStep_random_access rd D ex cs _⟩
+
+/-- a run splits at any point into the run of the prefix and the run of the
+rest from the cursor the prefix left (so "after any prefix `pre`" above is
+every position of every run). -/
+theorem run_splits {α} (rd : Reader α) (cs : Nat) (pre post : List IterOp) :
+    iterRun rd cs 0 (pre ++ post)
+      = ((iterRun rd cs (iterRun rd cs 0 pre).1 post).1,
+         (iterRun rd cs 0 pre).2 ++ (iterRun rd cs (iterRun rd cs 0 pre).1 post).2) :=
+  iterRun_append rd cs pre post 0
+
+/-- the CSR, dense and (for every budget) CSC readers answer legal requests
+with the stored rows. -/
+theorem readers_exact {α} (zero : α) (M : Mat α) (nMajor nMinor : Nat) (D : Dense α) (B : Budget)
+    (w : WFptr M.indptr nMajor M.indices.length) (hlen : M.data.length = M.indices.length)
+    (hr : ∀ x ∈ M.indices, x < nMinor) (hlo : 1 ≤ B.lo) (hc : 1 ≤ B.loCount) :
+    ReaderExact (csrReader zero M nMajor nMinor) (toDense zero M nMajor nMinor) ∧
+    ReaderExact (denseReader zero D nMinor) D ∧
+    ∃ rd, cscReader zero M nMinor nMajor B = .ok rd ∧
+      ReaderExact rd (transposeDense zero (toDense zero M nMajor nMinor) nMinor) :=
+  ⟨csrReader_exact zero M nMajor nMinor w hlen hr, denseReader_exact zero D nMinor,
+   cscReader_exact zero M nMinor nMajor B hlo hc w hlen hr⟩
+
+/- peek at the first rows, then loop: nothing skipped, nothing twice -/
+example : iterRun (csrReader 0 M0 3 3) 2 0 [.getChunk 0 1, .next, .getItem 2, .next, .next]
+    = (3, [.block [[1, 0, 2]] 0 1, .block [[1, 0, 2], [0, 3, 0]] 0 2, .block [[4, 0, 5]] 2 3,
+           .block [[4, 0, 5]] 2 3, .stop]) := by decide
+example : nextRows [.getChunk 0 1, .next, .getItem 2, .next, .next]
+    (iterRun (csrReader 0 M0 3 3) 2 0 [.getChunk 0 1, .next, .getItem 2, .next, .next]).2
+    = [[1, 0, 2], [0, 3, 0], [4, 0, 5]] := by decide
 
 end CTM.C05
